@@ -295,8 +295,8 @@ def _parse_shape_line(shape, line, span):
         else:
             shape_params_str, meta_str = parts
 
-    # strip trailing space and | chars
-    shape_params_str = shape_params_str.strip(' |')
+    # strip trailing white space (blanks, tabs) and | chars
+    shape_params_str = shape_params_str.strip(' \t|')
     shape_params_str = re.sub('[()]', '', shape_params_str).lower()
     meta_str = meta_str.strip()
 
